@@ -105,9 +105,10 @@ type Config struct {
 	Deadline time.Duration // cap (0 = none)
 	Serial   bool          // run bodies one at a time (bodies that need the whole process)
 	// ShardDepth (process-level sharding, VERIF_SHARD=i/n): work items with exactly ShardDepth deviations are dealt out
-	// over the shards by a hash of their choices; items with fewer deviations are executed by every shard (they are
-	// needed to generate the tree below them) but counted only by the shard that owns them. 0 or 1 = deal the children
-	// of the root execution (round-robin in generation order).
+	// over the shards by a hash of their choices (choices of Free classes - configuration dimensions - do not
+	// count as deviations here, so every configuration's subtree is spread over all shards); items with fewer deviations
+	// are executed by every shard (they are needed to generate the tree below them) but counted only by the shard that
+	// owns them. 0 = deal the children of the root execution round-robin in generation order (legacy).
 	ShardDepth int
 	// StuckAfter/OnStuck: livelock detection. A body that has not returned after StuckAfter of real time is handed to
 	// OnStuck together with the CPU time the process burnt meanwhile (a busy loop burns CPU, a starved machine or a
@@ -209,10 +210,10 @@ type Stats struct {
 	NondetPre  [][]Point // the prefixes whose replay diverged (for debugging the harness)
 }
 
-func deviations(pts []Point) int {
+func deviations(pts []Point, free map[string]bool) int {
 	n := 0
 	for _, p := range pts {
-		if p.Choice != 0 {
+		if p.Choice != 0 && !free[p.Class] {
 			n++
 		}
 	}
@@ -367,13 +368,13 @@ func Explore(cfg Config, body func(*Ctx)) Stats {
 				}
 			}
 			owned := true
-			if shardN > 1 && cfg.ShardDepth > 1 {
-				if deviations(prefix) < cfg.ShardDepth {
+			if shardN > 1 && cfg.ShardDepth >= 1 {
+				if deviations(prefix, free) < cfg.ShardDepth {
 					owned = ownerOf(prefix, shardN) == shardI
 				}
 				kept := children[:0]
 				for _, ch := range children {
-					if deviations(ch) != cfg.ShardDepth || ownerOf(ch, shardN) == shardI {
+					if deviations(ch, free) != cfg.ShardDepth || ownerOf(ch, shardN) == shardI {
 						kept = append(kept, ch)
 					}
 				}
